@@ -589,7 +589,18 @@ def run_legacy(c):
             return np.asarray(o[0]), np.asarray(s[0])
         return None, np.asarray(esn.compute_all_states([X], workers=1)[0])
     d = tempfile.mkdtemp(prefix="c16_")
+    attrs = None
     try:
+        # the scalar attributes, on a twin with arbitrary (distinct) noise gains and seed - not run
+        tw = ESN(lr=c["lr"], W=W, Win=Win, input_bias=c["bias"], ridge=0.125, Wfb=Wfb, noise_in=0.03125, noise_rc=0.0625, noise_out=0.25,
+                 seed=c["dseed"] % 1000, **kw)
+        pt = os.path.join(d, "twin")
+        tw.save(pt)
+        lt, ct = load(pt), load_compat(pt)
+        names = ("lr", "noise_in", "noise_rc", "noise_out", "seed", "input_bias", "ridge", "N")
+        attrs = {"saved": {k: getattr(tw, k, None) for k in names}, "loaded": {k: getattr(lt, k, None) for k in names},
+                 "converted": {"lr": float(np.ravel(ct.reservoir.lr)[0]), "noise_in": ct.reservoir.noise_in, "noise_rc": ct.reservoir.noise_rc,
+                               "noise_out": ct.reservoir.noise_out, "N": ct.reservoir.output_dim, "ridge": ct.readout.ridge}}
         p = os.path.join(d, "model")
         e.save(p)
         o0, s0 = outs(e)
@@ -603,7 +614,7 @@ def run_legacy(c):
     finally:
         shutil.rmtree(d, ignore_errors=True)
     Wout = np.asarray(e.Wout) if e.Wout is not None else np.zeros((k, n + 1))
-    return {"orig": (o0, s0), "loaded": (o1, s1), "conv": (o2, s2), "Wout": Wout}
+    return {"orig": (o0, s0), "loaded": (o1, s1), "conv": (o2, s2), "Wout": Wout, "attrs": attrs}
 
 
 def check_legacy(ctx, c, open_k):
@@ -614,6 +625,19 @@ def check_legacy(ctx, c, open_k):
     o = r[1]
     res = []
     (o0, s0), (o1, s1), (o2, s2) = o["orig"], o["loaded"], o["conv"]
+    at = o["attrs"]
+    bad = [k for k, v in at["saved"].items() if at["loaded"].get(k) != v]
+    if bad:
+        res.append(("oracle", f"a legacy ESN saved and loaded again has other attributes than the model that was saved: " +
+                    ", ".join(f"{k}: {at['saved'][k]!r} -> {at['loaded'][k]!r}" for k in bad)))
+        return ob, res
+    bad = [k for k, v in at["converted"].items() if k != "noise_out" and at["saved"].get(k) != v]
+    if c["fb"] and at["converted"]["noise_out"] != at["saved"]["noise_out"]:
+        bad.append("noise_out")
+    if bad:
+        res.append(("oracle", f"load_compat gives the converted model other hyper-parameters than the saved one: " +
+                    ", ".join(f"{k}: {at['saved'][k]!r} -> {at['converted'][k]!r}" for k in bad)))
+        return ob, res
 
     def differs(a, b, tol):
         if a is None or b is None:
@@ -666,6 +690,13 @@ def check_legacy(ctx, c, open_k):
 # ----------------------------------------------------------------------------- D. name histories
 
 def gen_names_case(g):
+    if g.chance(0.2):
+        # planted: a model mixing a node whose name is NOT registered (itself a deep copy / unpickled) with a fresh,
+        # registered one, then copied: only some of its nodes are renamed by the copy
+        k = g.choice([0, 1])
+        return {"kind": "names", "ops": [{"op": "new_node"}, {"op": "new_node"}, {"op": "deepcopy_node", "i": k},
+                                          {"op": "mk_model", "ids": [2, 1 - k]}, {"op": "deepcopy_model", "j": 0},
+                                          {"op": "deepcopy_model", "j": 1}]}
     ops = []
     pool = 0          # pool size
     pool_names = []   # symbolic: index of the "base" to avoid duplicate names in one model
